@@ -12,20 +12,20 @@ Local Open Scope list_scope.
    next(iter(.)) / next(iter(.values())) only of re-iterable Collections / Mappings.  (The
    expression language of generated code has no other operation: the template translator
    rejects anything else, so a mutating call in a template is a broken obligation.) *)
-Theorem C10_readonly : forall cf r preds h x,
+Theorem C10_readonly : forall cf r pb h x,
   hint_ok h = true -> wf x = true ->
-  Forall safe_op (trace_of r preds (check_expr cf h) x).
+  Forall safe_op (trace_of r (preds_of pb) (check_expr cf h) x).
 Proof. exact check_expr_trace_safe. Qed.
 Print Assumptions C10_readonly.
 
 (* no check advances an iterator or generator, or consumes a one-shot iterable *)
-Theorem C10_no_iteration_of_nonreiterables : forall cf r preds h x v,
+Theorem C10_no_iteration_of_nonreiterables : forall cf r pb h x v,
   hint_ok h = true -> wf x = true ->
-  In (TFirst v) (trace_of r preds (check_expr cf h) x) \/ In (TFirstValue v) (trace_of r preds (check_expr cf h) x) ->
+  In (TFirst v) (trace_of r (preds_of pb) (check_expr cf h) x) \/ In (TFirstValue v) (trace_of r (preds_of pb) (check_expr cf h) x) ->
   issub (type_of v) c_Collection = true.
 Proof.
-  intros cf r preds h x v Hok Hw Hin.
-  pose proof (check_expr_trace_safe cf r preds h x Hok Hw) as Hs. rewrite Forall_forall in Hs.
+  intros cf r pb h x v Hok Hw Hin.
+  pose proof (check_expr_trace_safe cf r pb h x Hok Hw) as Hs. rewrite Forall_forall in Hs.
   destruct Hin as [Hin|Hin]; specialize (Hs _ Hin); cbn [safe_op] in Hs; [exact Hs|].
   now apply Core.ClassFacts.collection_of_mapping.
 Qed.
@@ -33,19 +33,19 @@ Print Assumptions C10_no_iteration_of_nonreiterables.
 
 (* a mapping is only ever indexed at a key it already holds, so defaultdict.__missing__
    cannot fire and nothing is inserted; a sequence is only ever indexed within its bounds *)
-Theorem C10_mapping_key_present : forall cf r preds h x c kvs k,
+Theorem C10_mapping_key_present : forall cf r pb h x c kvs k,
   hint_ok h = true -> wf x = true ->
-  In (TItem (VMap c kvs) k) (trace_of r preds (check_expr cf h) x) -> lookup k kvs <> None.
+  In (TItem (VMap c kvs) k) (trace_of r (preds_of pb) (check_expr cf h) x) -> lookup k kvs <> None.
 Proof.
-  intros cf r preds h x c kvs k Hok Hw Hin.
-  pose proof (check_expr_trace_safe cf r preds h x Hok Hw) as Hs. rewrite Forall_forall in Hs.
+  intros cf r pb h x c kvs k Hok Hw Hin.
+  pose proof (check_expr_trace_safe cf r pb h x Hok Hw) as Hs. rewrite Forall_forall in Hs.
   exact (Hs _ Hin).
 Qed.
 Print Assumptions C10_mapping_key_present.
 
 (* ---- non-vacuity: a generator under Iterable[int] is accepted without being touched, a
         defaultdict is indexed at its first key only ---- *)
-Definition no_preds10 (f : nat) (v : pyval) : res pyval := Exc TypeError.
+Definition no_preds10 := preds_of (fun _ _ => false).
 
 Example C10_demo_generator :
   let h := HCont s_Iterable (HCls c_int) in
